@@ -93,6 +93,16 @@ def tree_lines(ctx, label, sizes=True):
             M = gen.corrupt(rng, M)
         for c, entry, MM in cfgs_for(M, True)[:1]:
             lines.append("%s %d %s %s" % (gen.cfg_line(c), entry, mat_line(MM), script()))
+    # binary 3-sums of a graphic and a cographic matroid: 3-connected, usually neither graphic nor cographic, so the
+    # tree contains 3-sum / pivot nodes found by the nested-minor 3-separation search (both as regular and as TU input)
+    for _ in range(150 if q else 3000):
+        M = gen.threesum_graphic_cographic(rng)
+        if not M:
+            continue
+        if rng.below(4) == 0:
+            M = gen.corrupt(rng, M, (0, 1))
+        for c, entry, MM in cfgs_for(M, True)[:1]:
+            lines.append("%s %d %s %s" % (gen.cfg_line(c), entry, mat_line(MM), script()))
     return lines
 
 
